@@ -763,6 +763,10 @@ unsafe impl Allocator for PageAlignedAllocator {
     unsafe fn deallocate(&self, ptr: ptr::NonNull<u8>, layout: Layout) {
         let pagesize = *PAGESIZE;
 
+        // wipe the whole allocation, including spare capacity, before it is
+        // handed back to the system allocator
+        std::slice::from_raw_parts_mut(ptr.as_ptr(), layout.size()).zeroize();
+
         let ptr = ptr.as_ptr().offset(-(pagesize as isize));
 
         // unlock the fore protected region
